@@ -84,7 +84,7 @@ type RunReport struct {
 	HashChecks  uint64
 }
 
-const opStepCap = 200000
+const opStepCap = 500000
 
 // ---------------------------------------------------------------- map order seam
 
@@ -216,6 +216,15 @@ func recheck(outs []Outcome, upto int, when string) {
 	}
 }
 
+// stepsAtOpBegin: the step counter right after simrt.OpBegin (0 outside a run, where
+// OpBegin restarts the count).
+func stepsAtOpBegin() uint64 {
+	if simrt.Active() {
+		return simrt.LocalStep()
+	}
+	return 0
+}
+
 func stepsNow() uint64 {
 	if simrt.Active() {
 		return simrt.LocalStep()
@@ -260,6 +269,7 @@ type watch struct {
 	on        bool
 	every     bool
 	stride    uint64 // per-step hashing of a large document is done every stride-th step
+	swStride  uint64 // at-switch hashing of a very large document: every swStride-th switch
 	tick      uint64
 	docs      []interface{}
 	base      []uint64
@@ -321,8 +331,11 @@ func countNodes(v interface{}, d int) int {
 //go:norace
 func onSwitch(from, to int, site int32) {
 	if wt.on && !wt.every {
-		// the parked client's last executed statement is the current site's predecessor
-		watchCheck(from, site)
+		wt.tick++
+		if wt.swStride <= 1 || wt.tick%wt.swStride == 0 {
+			// the parked client's last executed statement is the current site's predecessor
+			watchCheck(from, site)
+		}
 	}
 }
 
@@ -432,6 +445,29 @@ func schedConfig(w *Workload) *simrt.Config {
 	return cfg
 }
 
+// libHasGo: the instrumented library contains go statements. A call made "alone"
+// (reference evaluations, the single-client histories of C13) then still involves several
+// goroutines; it is executed as a simulated run of its own (no preemption: the goroutines
+// the library starts run when the caller waits for them), so that its outcome and its step
+// count are a function of the input and not of the Go scheduler.
+var libHasGo bool
+
+// soloDo runs f alone: directly, or as a one-client simulated run when the library starts
+// goroutines. It reports whether f ran to completion (false: the library deadlocked or
+// needed more goroutines than the simulator has slots) and the steps of the whole run.
+func soloDo(f func()) (completed bool, steps uint64) {
+	if !libHasGo || simrt.Active() {
+		f()
+		return true, 0
+	}
+	done := false
+	o := simrt.Run(&simrt.Config{Seed: 1, Policy: simrt.PolNone, StepCap: opStepCap}, []func(){func() {
+		f()
+		done = true
+	}})
+	return done && !o.Aborted, o.Steps
+}
+
 // reference evaluates op alone: freshly initialised package, fresh compile, private
 // document, same map order.
 func reference(w *Workload, op Op) Outcome {
@@ -446,8 +482,18 @@ func reference(w *Workload, op Op) Outcome {
 		e.compiled[op.Expr] = jp
 	}
 	simrt.RefMode(opStepCap)
-	out := execOp(op, e)
+	var out Outcome
+	ok, steps := soloDo(func() { out = execOp(op, e) })
 	simrt.RefMode(0)
+	if !ok {
+		return Outcome{Kind: "stepcap", Steps: opStepCap} // no answer even alone: says nothing about concurrency
+	}
+	if steps > out.Steps {
+		out.Steps = steps
+	}
+	if out.Kind == "stepcap" {
+		out.Steps = opStepCap // (the estimate that thins preemptions out on long runs)
+	}
 	return out
 }
 
@@ -537,6 +583,9 @@ func runSched(w *Workload) *RunReport {
 		}
 		if nodes > 200 && !w.ExactHash {
 			wt.stride = uint64(nodes / 100)
+		}
+		if nodes > 4000 && !w.ExactHash {
+			wt.swStride = uint64(nodes / 2000) // (the end-of-run comparison and the observer see every lasting write anyway)
 		}
 		wt.on = true
 	}
